@@ -38,7 +38,7 @@ RDATA: List[Dict[str, Any]] = (
        [(0, 0, 80, 'h.local.'), (1, 0, 80, 'h.local.'), (0, 1, 80, 'h.local.'), (0, 0, 81, 'h.local.'),
         (0, 0, 80, 'H.LOCAL.'), (0, 0, 80, 'g.local.')]]
     + [{'k': 'HINFO', 'cpu': c, 'os': o} for c in ('c', 'C') for o in ('o', 'p')]
-    + [{'k': 'NSEC', 'next': n, 'types': t} for n in ('a.local.', 'b.local.') for t in ([1], [28], [1, 28])]
+    + [{'k': 'NSEC', 'next': n, 'types': t} for n in ('a.local.', 'b.local.') for t in ([1], [28], [1, 28], [28, 1])]      # the type list is a set: order is not rdata
 )
 KIND_TYPE = {'A': 1, 'CNAME': 5, 'PTR': 12, 'HINFO': 13, 'TXT': 16, 'AAAA': 28, 'SRV': 33, 'NSEC': 47}
 QTYPES = [12, 1, 255]
@@ -225,7 +225,10 @@ def wide_pair(draw) -> Dict[str, Any]:
                 f = draw(st.sampled_from(['cpu', 'os']))
                 b[f] = b[f].swapcase() if b[f].swapcase() != b[f] else b[f] + 'z'
             elif k == 'NSEC':
-                if draw(st.booleans()):
+                how = draw(st.integers(0, 2))
+                if how == 0:
+                    b['types'] = list(reversed(b['types'])) if len(b['types']) > 1 else [28, 12, 1]     # same set, other order (or another set)
+                elif how == 1:
                     b['types'] = sorted(set(b['types']) ^ {draw(st.integers(1, 255))}) or [1]
                 else:
                     b['next'] = draw(st.sampled_from(names))
